@@ -274,6 +274,7 @@ impl<'a, 'b> Sem<'a, 'b> {
             v_obj(vec![
                 ("C", v_comp("NS.C")),
                 ("el", v_comp("NS.el")),
+                ("k-1", v_comp("NS.k-1")),
                 ("a", v_obj(vec![("B", v_comp("NS.a.B"))])),
             ]),
         ));
@@ -465,7 +466,7 @@ impl<'a, 'b> Sem<'a, 'b> {
             1 => match self.c.pick(6) {
                 0 | 1 => Tag::Bound(self.c.choose(&["C1", "C2"]).to_string()),
                 // (`NS.el`'s property name is matched by the "el" pattern: still a component)
-                2 => Tag::Member(self.c.choose(&["NS.C", "NS.a.B", "NS.el"]).to_string()),
+                2 => Tag::Member(self.c.choose(&["NS.C", "NS.a.B", "NS.el", "NS.k-1"]).to_string()),
                 3 | 4 => Tag::Unbound(self.c.choose(&["Foo", "foo-bar", "Bar", "myComp"]).to_string()),
                 _ => Tag::Bound("C1".into()),
             },
